@@ -34,6 +34,15 @@ PREFER["6"] = ("This time prefer one of the following kinds of change: (n) a cla
                "a trace equal to one only up to 1e-12; (r) solver-related paths: primal versus dual branch, option pass-through, an alternative solver "
                "argument. Do NOT use in-place modification of the caller's arguments, caches / module-level state, exact-zero priors, tolerance-argument "
                "swaps, row-vector handling or single-number dimension arguments (all used in earlier rounds).")
+PREFER["7"] = ("This time prefer one of the following kinds of change: (s) an inconsistency BETWEEN two functions of the property - each still behaves "
+               "sensibly alone (docstring examples still right) but their conventions no longer match (subsystem order, conjugation, normalisation, "
+               "which argument is transposed), so that compositions, round trips or cross-checks between them break; (t) default behaviour: a changed "
+               "default value or a changed inference of an omitted argument (default level, default dimension for non-square sizes, default solver, "
+               "default prior); (u) an 'optimisation' that is wrong only for non-generic data: repeated entries, ties in a sort, exact zeros, negative "
+               "numbers, duplicate states in an ensemble, identical operators in a list; (v) invalid input handling: an input the statement says must "
+               "be rejected is silently accepted, or a different exception type is raised. Do NOT use in-place modification of the caller's arguments, "
+               "caches / module-level state, exact-zero priors, tolerance-argument swaps, row-vector handling, single-number dimension arguments, "
+               "seed-0 handling or a conjugation of returned measurement operators (all used in earlier rounds).")
 TEMPLATE = open(os.path.join(os.path.dirname(os.path.abspath(__file__)), "seedprompt.template.txt")).read()
 os.makedirs(f"/tmp/seeded{ROUND}", exist_ok=True)
 for line in open("/verif/properties.jsonl"):
